@@ -196,6 +196,52 @@ def run(ctx):
         for (b, t) in order[:: max(1, len(order) // 25)]:
             if abs(float(e3.time_at(Beat(b), EventTag[t])) - times[(b, t)]) > TOL or e3.bpm_at(Beat(b)) != e.bpm_at(Beat(b)):
                 res.violation(case, "inserting a BPM change that repeats the BPM in force changes an answer", inserted=[str(x) for x in xs], beat=str(b), tag=t); break
+    # from the text of a simfile: the declared timing (BPMS / STOPS or the legacy FREEZES key / DELAYS / WARPS / OFFSET, at song
+    # level or in an SSC chart of a split-timing version) -> loads -> TimingData -> TimingEngine, against the exact timeline of the
+    # *declared* values (so that a loader or an alias that loses an event list is visible)
+    import simfile as _sf
+    from simfile.timing import TimingData
+    from simfile.timing.engine import TimingEngine
+    def bv(l): return ",\n".join("%.3f=%s" % (float(b), v) for b, v in l)
+    n_text = 0
+    for kind, td in tds:
+        if n_text >= ctx.scale(60, 600): break
+        if kind == "grid" and rng.random() < .8: continue
+        if any((Fraction(b) * 1000).denominator != 1 for k in KINDS for b, _ in td[k]): continue      # beats must survive the 3-decimal text
+        if any((Fraction(str(v)) * 1000).denominator != 1 for k in ("warps",) for _, v in td[k]): continue
+        n_text += 1
+        form = rng.choice(["sm-stops", "sm-freezes", "sm-freezes", "ssc-song", "ssc-chart"])
+        if form.startswith("sm"):
+            td = dict(td, delays=[], warps=[])               # the SM format has neither
+            if not td["stops"]: td["stops"] = [(Fraction(rng.randrange(0, 192), 48), Decimal(rng.randrange(1, 4000)) / 1000)]
+        body = "#OFFSET:%s;\n#BPMS:%s;\n" % (td["offset"], bv(td["bpms"]))
+        if form == "sm-freezes": body += "#FREEZES:%s;\n" % bv(td["stops"])
+        else: body += "#STOPS:%s;\n" % bv(td["stops"])
+        if not form.startswith("sm"): body += "#DELAYS:%s;\n#WARPS:%s;\n" % (bv(td["delays"]), bv(td["warps"]))
+        notes = "0000\n0000\n0000\n0000\n"
+        if form.startswith("sm"):
+            text = "#TITLE:t;\n" + body + "#NOTES:\n dance-single:\n :\n Easy:\n 1:\n :\n" + notes + ";\n"
+        elif form == "ssc-song":
+            text = "#VERSION:0.83;\n#TITLE:t;\n" + body + "#NOTEDATA:;\n#STEPSTYPE:dance-single;\n#NOTES:\n" + notes + ";\n"
+        else:
+            text = "#VERSION:0.83;\n#TITLE:t;\n#OFFSET:9.000;\n#BPMS:0.000=77.000;\n#STOPS:1.000=3.000;\n#NOTEDATA:;\n#STEPSTYPE:dance-single;\n" + body + "#NOTES:\n" + notes + ";\n"
+        case = {"from_text": form, "td": gen.td_show(td)}
+        res.case(case); res.count("from_text_" + form)
+        try:
+            sfo = _sf.loads(text)
+            e = TimingEngine(TimingData(sfo, sfo.charts[0]) if form == "ssc-chart" else TimingData(sfo))
+        except Exception as ex:
+            res.violation(case, "loading the declared timing raised", impl=core.exc_name(ex), text=text[:400]); continue
+        spec = gen.TimeSpec(td, tag_order)
+        for b in probes_for(td, rng, n_random=3)[::2]:
+            for t in ("STOP", "STOP_END", "WARP"):
+                got = float(e.time_at(Beat(b), EventTag[t])); exp = spec.time(b, t)
+                res.traces += 1
+                if abs(got - float(exp)) > TOL:
+                    res.violation(case, "time_at of the engine built from the simfile text differs from the exact timeline of the declared timing",
+                                  beat=str(b), tag=t, impl=got, spec=float(exp), text=text[:400]); break
+            else: continue
+            break
     res.assumptions = ["IEEE-754 arithmetic: Model/EngineF.lean makes every rounding of time_until/advance/time_at explicit and C11F.time_error bounds |time_atF - time_at| by errTimeAt under the standard model (u = 2^-53); the impl's doubles are checked against that bound exactly on every run (stats float_*), and against the exact timeline within 1e-9 s",
                        "heapq.merge / bisect are modelled (merge of sorted lists, Python's bisect loop verbatim)"]
     return res
